@@ -210,6 +210,135 @@ def history_for(model, dofs, spp0, L0, K, P, n):
     return hist
 
 
+# ------------------------------------------------------------------------------------------------ automatic interface detection
+class MatchNP:
+    """numpy facade for _check_geo_match: linspace/flip as usual, allclose on symbolic arrays = entrywise equality (a solver term whose
+    truth value forks the path)"""
+    def __getattr__(self, name): return getattr(np, name)
+    def allclose(self, a, b, **kw):
+        a = np.asarray(a, dtype=object) if not (isinstance(a, np.ndarray) and a.dtype != object) else a
+        b = np.asarray(b, dtype=object) if not (isinstance(b, np.ndarray) and b.dtype != object) else b
+        if getattr(a, 'dtype', None) == object or getattr(b, 'dtype', None) == object:
+            if np.shape(a) != np.shape(b): return False
+            return sx.SymB(sx.eq_arrays(a, b))
+        return np.allclose(a, b, **kw)
+
+
+def load_match(enc=None, transform=None):
+    ns = {'np': MatchNP(), 'itertools': itertools}
+    srcload.load_defs('pyiga/assemble.py', ['_check_geo_match', '_find_matching_boundaries'], ns, encoded=enc, transform=transform)
+    return ns
+
+
+class FaceMap:
+    """a (d-1)-dimensional face map  x -> label + sum_k s_k * y_k  componentwise injective in the coordinates, where y = x with the axes
+    listed in `flips` (solver Booleans) reversed inside the support: two face maps coincide under exactly the flip that undoes the difference"""
+    def __init__(self, sdim, label, scales, flips, dim=3):
+        self.sdim = sdim; self.dim = dim; self.support = tuple((0.0, 1.0) for _ in range(sdim))
+        self.label = label; self.scales = scales; self.flips = flips
+    def grid_eval(self, grid):
+        N = tuple(len(g) for g in grid)
+        out = np.empty(N + (self.dim,), dtype=object)
+        for idx in np.ndindex(*N):
+            for k in range(self.dim):
+                v = self.label if k == self.dim - 1 else 0
+                if k < self.sdim:
+                    x = grid[k][idx[k]]
+                    xr = 1.0 - x
+                    y = Sym(z3.If(self.flips[k], sx._toreal(lift(xr)), sx._toreal(lift(x)))) if not isinstance(self.flips[k], bool) else (xr if self.flips[k] else x)
+                    v = v + self.scales[k] * y
+                out[idx + (k,)] = v
+        return out
+
+
+def geo_match_harness(ns, sdim):
+    """_check_geo_match(G1, G2): for EVERY true flip t (solver Booleans) between two otherwise identical injective face maps the routine reports a match
+    with exactly that flip; maps with different labels never match"""
+    def run(c):
+        t = [z3.Bool('t%d' % k) for k in range(sdim)]
+        sc = [Sym(z3.Real('s%d' % k)) for k in range(sdim)]
+        for s_ in sc: c.assume(s_.t != 0)
+        L = Sym(z3.Real('L'))
+        G1 = FaceMap(sdim, L, sc, [False] * sdim); G2 = FaceMap(sdim, L, sc, t)
+        ok, flip = ns['_check_geo_match'](G1, G2)
+        if not ok:
+            c.check(z3.BoolVal(False), '_check_geo_match: coinciding faces are detected for every orientation')
+        else:
+            c.check(z3.And(*[z3.BoolVal(bool(flip[k])) == t[k] for k in range(sdim)]), '_check_geo_match: the reported flip is the orientation difference of the two faces')
+        L2 = Sym(z3.Real('L2')); c.assume(L2.t != L.t)
+        ok2, _ = ns['_check_geo_match'](G1, FaceMap(sdim, L2, sc, t))
+        c.check(z3.BoolVal(not ok2), '_check_geo_match: different faces do not match')
+        c.witness('geo match')
+    return run
+
+
+def find_boundaries_harness(ns, sdim, shared):
+    """_find_matching_boundaries(G1, G2): the faces of two patches carry labels; `shared` lists the face pairs that coincide (with symbolic flips).
+    The routine must return exactly those pairs -- all of them -- with the right flips."""
+    def run(c):
+        faces = list(itertools.product(range(sdim), (0, 1)))
+        sc = [Sym(z3.Real('s%d' % k)) for k in range(sdim - 1)]
+        for s_ in sc: c.assume(s_.t != 0)
+        lab1 = {f: Sym(z3.Real('a_%d_%d' % f)) for f in faces}; lab2 = {f: Sym(z3.Real('b_%d_%d' % f)) for f in faces}
+        flips = {}
+        alll = list(lab1.values()) + list(lab2.values())
+        pairs = set()
+        for (f1, f2) in shared:
+            c.assume(lab1[f1].t == lab2[f2].t); pairs.add((f1, f2))
+            flips[(f1, f2)] = [z3.Bool('t_%d%d_%d%d_%d' % (f1 + f2 + (k,))) for k in range(sdim - 1)]
+        for f1 in faces:
+            for f2 in faces:
+                if (f1, f2) not in pairs: c.assume(lab1[f1].t != lab2[f2].t)
+        class Patch:
+            def __init__(self, lab, second): self.sdim = sdim; self.dim = 3; self.lab = lab; self.second = second
+            def boundary(self, bdspec):
+                f = tuple(bdspec)
+                fl = [False] * (sdim - 1)
+                if self.second:
+                    for (f1, f2), tt in flips.items():
+                        if f2 == f: fl = tt
+                return FaceMap(sdim - 1, self.lab[f], sc, fl)
+        res = ns['_find_matching_boundaries'](Patch(lab1, False), Patch(lab2, True))
+        got = {(tuple(a), tuple(b)): fl for (a, b, fl) in res}
+        ok = [z3.BoolVal(set(got) == pairs and len(res) == len(pairs))]
+        for pr in pairs:
+            if pr in got:
+                ok += [z3.BoolVal(bool(got[pr][k])) == flips[pr][k] for k in range(sdim - 1)]
+        c.check(z3.And(*ok), '_find_matching_boundaries: exactly the coinciding face pairs, each with its flip (%d shared faces)' % len(pairs))
+        c.witness('find boundaries')
+    return run
+
+
+REPLAY_IFACE = r"""
+import sys, json, itertools, numpy as np
+w = json.load(sys.stdin)
+from pyiga import assemble, geometry, bspline
+bad = []
+# two stacked unit cubes, the second mirrored in every combination of the tangential directions, for all three stacking axes
+for axis in range(3):
+    for mir in itertools.product((False, True), repeat=2):
+        g1 = geometry.unit_cube()
+        C = geometry.unit_cube().coeffs.copy()
+        tang = [a for a in range(3) if a != axis]
+        for a, m in zip(tang, mir):
+            if m: C = np.flip(C, axis=a)
+        off = np.zeros(3); off[2 - axis] = 1.0
+        g2 = bspline.BSplineFunc(g1.kvs, C).translate(off)
+        conn, ifaces = assemble.detect_interfaces([(g1.kvs, g1), (g2.kvs, g2)])
+        exp_flip = tuple(bool(m) for m in mir)
+        ok = conn and len(ifaces) == 1 and tuple(ifaces[0][1]) == (axis, 1) and tuple(ifaces[0][3]) == (axis, 0) and tuple(bool(x) for x in ifaces[0][4]) == exp_flip
+        if not ok: bad.append('stacking axis %d, mirrored %s: detected %s' % (axis, mir, ifaces))
+# a ring of two half annuli shares TWO faces
+ann = geometry.quarter_annulus()
+half1 = geometry.tensor_product if False else None
+qa = [geometry.quarter_annulus().rotate_2d(k * np.pi / 2) for k in range(4)]
+conn, ifaces = assemble.detect_interfaces([(g.kvs, g) for g in qa])
+if not conn or len(ifaces) != 4: bad.append('ring of four quarter annuli: %d interfaces' % len(ifaces))
+kv = bspline.make_knots(2, 0.0, 1.0, 1)
+print(json.dumps({'reproduced': bool(bad), 'bad': bad[:6]}))
+"""
+
+
 def main():
     run = Run(PID, level='other', description='Inductive step of Multipatch.join_dofs/finalize on a symbolic pre-state.')
     thorough = run.tier == 'thorough'
@@ -276,11 +405,26 @@ def main():
             run.canary(name, det)
         canary('second branch adds to wrong patch', "                sd = self.shared_per_patch[p2][i2]\n                add_to_shared(sd, p1, i1)", "                sd = self.shared_per_patch[p2][i2]\n                add_to_shared(sd, p1, i2)")
         canary('new shared dof not registered for p2', "                add_to_shared(sd, p1, i1)\n                add_to_shared(sd, p2, i2)", "                add_to_shared(sd, p1, i1)")
+    if run.want('interfaces'):
+        enc3 = srcload.Encoded(); mns = load_match(enc3); run.add_encoded(enc3)
+        run.stubs += ['interface detection: faces are stub maps  x -> label + s.x  (symbolic injective scales, symbolic labels, symbolic orientation flips); np.allclose on symbolic arrays = entrywise equality (forks the path)']
+        def do_iface(group, h, bound):
+            st = sx.explore(h, timeout_ms=60000, stop_at_first=False, max_paths=4000)
+            run.absorb(st, group, bound=bound, sample={'obligation': group, **bound})
+            if st.cex:
+                r = realbuild.run_real(REPLAY_IFACE, {}, only=[])
+                run.report('interfaces:%s' % group, '%s %s: solver: %s; real detect_interfaces: %s' % (group, bound, sorted({cx['name'] for cx in st.cex})[:3], r['bad'][:4]), {'kind': 'interfaces'}, r['reproduced'])
+        for sd in (1, 2):
+            do_iface('_check_geo_match', geo_match_harness(mns, sd), {'face dimension': sd, 'flips': 'all (symbolic)'})
+        for sdim, shared in [(2, [((1, 1), (1, 0))]), (2, [((0, 1), (0, 0)), ((0, 0), (0, 1))]), (3, [((2, 1), (2, 0))]), (3, [((0, 1), (1, 0))]), (2, [])]:
+            do_iface('_find_matching_boundaries', find_boundaries_harness(mns, sdim, shared), {'patch dimension': sdim, 'shared faces': [list(map(list, pr)) for pr in shared]})
     run.finish()
 
 
 def replay_file(path):
     w = json.load(open(path))['witness']
+    if w.get('kind') == 'interfaces':
+        r = realbuild.run_real(REPLAY_IFACE, {}, only=[]); print(json.dumps(r)); print('REPRODUCED' if r['reproduced'] else 'NOT-REPRODUCED'); sys.exit(1 if r['reproduced'] else 0)
     r = realbuild.run_real(REPLAY, w, only=[])
     print(json.dumps(r)); print('REPRODUCED' if r['reproduced'] else 'NOT-REPRODUCED')
     sys.exit(1 if r['reproduced'] else 0)
